@@ -1,8 +1,18 @@
+/-
+  C09 for iNET and iNETPackage.  `iNET.unpack` checks "short buffer" (C09's list); `iNETPackage.unpack` checks
+  that the declared package length is not below the 12-byte header but NOT that it lies inside the buffer
+  (outside C09's list, DESIGN §12.4, notes/fti.md §4 F2).  What is proved about a package is therefore the exact
+  closed form of what the code does with any declared length (`iNETPackage_unpack_payload`), the corollary
+  "declared length within the buffer ⇒ payload of exactly the declared length" (`iNETPackage_exact`), and the
+  exact acceptance condition of the whole message as a walk over the bytes (`iNET_accepts_iff`).
+  `pkgDeclared`, `pkgAdvance`, `PkgOk`, `PkgWalk` are defined in Acra.Lemmas.iNETWalk.
+-/
 import Acra.Model.iNET
 import Acra.Lemmas.Bits
 import Acra.Lemmas.iNET
+import Acra.Lemmas.iNETWalk
 namespace Acra.Props.C09
-open Acra.Py Acra.Model.iNET Acra.Gen.iNET Acra.Lemmas.Bits
+open Acra.Py Acra.Model.iNET Acra.Gen.iNET Acra.Lemmas.Bits Acra.Lemmas.iNET Acra.Lemmas.Walk
 
 /-- short buffer: anything shorter than the 24-byte header is rejected with ValueError and the object is untouched -/
 theorem iNET_short_rejected (t : State) (buf : Bytes) (h : buf.length < 24) :
@@ -68,24 +78,145 @@ theorem iNETPackage_ok_iff (t : Pkg) (buf : Bytes) :
       simp [this]
     simp [Pkg.unpack, this, h12]
 
-/- Full statement (FALSE of the faithful model, hence of the code):
-     (Pkg.unpack t buf).2 = .ok r → (Pkg.unpack t buf).1.payload.length = declaredPkgLen buf - 12
-   A declared length that points past the end of the buffer is accepted and the payload is what is there. -/
-theorem iNETPackage_exact_partial (t : Pkg) (buf r : Bytes) (h : (Pkg.unpack t buf).2 = .ok r) :
+theorem declaredPkgLen_eq (buf : Bytes) : declaredPkgLen buf = pkgDeclared buf := rfl
+
+/-- `iNETPackage.unpack`, exactly, for every buffer that holds the 12-byte header and EVERY declared length
+    `d ≥ 12`: `_length` is `d` as declared (not rewritten); the payload is `buffer[12:d]`, i.e.
+    `buffer[12 : min d len(buffer)]`, so it has `min d len(buffer) − 12` bytes; the rest returned is
+    `buffer[roundUp4 d:]` (empty when `d` points past the end); the other fields are what the layout says. -/
+theorem iNETPackage_unpack_payload (t : Pkg) (buf : Bytes) (h12 : 12 ≤ buf.length) (hl : 12 ≤ declaredPkgLen buf) :
     (Pkg.unpack t buf).1.length = declaredPkgLen buf ∧
     (Pkg.unpack t buf).1.payload = slice buf 12 (declaredPkgLen buf) ∧
+    (Pkg.unpack t buf).1.payload = slice buf 12 (min (declaredPkgLen buf) buf.length) ∧
     (Pkg.unpack t buf).1.payload.length = min (declaredPkgLen buf) buf.length - 12 ∧
-    (declaredPkgLen buf ≤ buf.length → (Pkg.unpack t buf).1.payload.length = declaredPkgLen buf - 12) := by
-  obtain ⟨h12, hl⟩ := (iNETPackage_ok_iff t buf).1 ⟨r, h⟩
-  obtain ⟨d, r', f, td, hh⟩ := PKG_hdr buf h12
-  have hl' : ¬ declaredPkgLen buf < 12 := by omega
-  simp only [Pkg.unpack, hh, PKG_FORMAT_LEN, hl', if_false, slice_length]
-  refine ⟨trivial, trivial, trivial, ?_⟩
-  intro hle
+    (Pkg.unpack t buf).2 = .ok (buf.drop (roundUp4 (declaredPkgLen buf))) ∧
+    (Pkg.unpack t buf).1.definitionID = beNat (buf.take 4) ∧
+    (Pkg.unpack t buf).1.flags = beNat ((buf.drop 7).take 1) ∧
+    (Pkg.unpack t buf).1.timedelta = beNat ((buf.drop 8).take 4) := by
+  rw [Pkg_unpack_closed t buf h12 hl]
+  refine ⟨rfl, rfl, ?_, ?_, rfl, rfl, rfl, rfl⟩
+  · show slice buf 12 (pkgDeclared buf) = slice buf 12 (min (pkgDeclared buf) buf.length)
+    simp only [slice]
+    by_cases h : pkgDeclared buf ≤ buf.length
+    · rw [Nat.min_eq_left h]
+    · rw [Nat.min_eq_right (by omega), List.take_of_length_le (Nat.le_refl _), List.take_of_length_le (by omega)]
+  · show (slice buf 12 (pkgDeclared buf)).length = _
+    rw [slice_length]; rfl
+
+/-- the whole result as one equation (object and rest), for any prior state `t` -/
+theorem iNETPackage_unpack_closed (t : Pkg) (buf : Bytes) (h12 : 12 ≤ buf.length) (hl : 12 ≤ declaredPkgLen buf) :
+    Pkg.unpack t buf = (pkgDecoded t buf, .ok (buf.drop (pkgAdvance buf))) :=
+  Pkg_unpack_closed t buf h12 hl
+
+/-- corollary: a declared length within the buffer (and not below the header's) gives a payload of exactly the
+    declared length minus the header -/
+theorem iNETPackage_exact (t : Pkg) (buf : Bytes) (hl : 12 ≤ declaredPkgLen buf) (hle : declaredPkgLen buf ≤ buf.length) :
+    (Pkg.unpack t buf).1.payload = slice buf 12 (declaredPkgLen buf) ∧
+    (Pkg.unpack t buf).1.payload.length = declaredPkgLen buf - 12 ∧
+    (Pkg.unpack t buf).1.length = declaredPkgLen buf := by
+  obtain ⟨h1, h2, _, h4, _⟩ := iNETPackage_unpack_payload t buf (by omega) hl
+  refine ⟨h2, ?_, h1⟩
+  rw [h4]; omega
+
+/-- and only then: the payload of an accepted package has the declared length exactly when the declared
+    length lies inside the buffer -/
+theorem iNETPackage_exact_iff (t : Pkg) (buf : Bytes) (h12 : 12 ≤ buf.length) (hl : 12 ≤ declaredPkgLen buf) :
+    (Pkg.unpack t buf).1.payload.length = declaredPkgLen buf - 12 ↔ declaredPkgLen buf ≤ buf.length := by
+  rw [(iNETPackage_unpack_payload t buf h12 hl).2.2.2.1]
   omega
 
-/-- witness of the gap: a package declaring 100 bytes with none present is accepted -/
+/-- the gap between `iNETPackage_unpack_payload` and "payload = declared − 12": a package declaring 100 bytes
+    with none present is accepted -/
 example : (Pkg.unpack Pkg.fresh [0, 0, 0, 1, 0, 100, 0, 0, 0, 0, 0, 0]).2 = .ok [] ∧
     (Pkg.unpack Pkg.fresh [0, 0, 0, 1, 0, 100, 0, 0, 0, 0, 0, 0]).1.payload = [] := ⟨rfl, rfl⟩
+
+/-- non-vacuity of `iNETPackage_exact`: 14 declared, 16 present -/
+example : 12 ≤ declaredPkgLen [0, 0, 0, 1, 0, 14, 0, 0, 0, 0, 0, 0, 7, 8, 0, 0] ∧
+    declaredPkgLen [0, 0, 0, 1, 0, 14, 0, 0, 0, 0, 0, 0, 7, 8, 0, 0] ≤
+      ([0, 0, 0, 1, 0, 14, 0, 0, 0, 0, 0, 0, 7, 8, 0, 0] : Bytes).length := by decide
+
+/-- the package loop is the walk: `PkgWalk rem` holds when `rem` is empty, or the package at its front has a
+    complete 12-byte header and declares at least 12 bytes, and the walk continues after the DECLARED length
+    rounded up to four -/
+theorem PkgWalk_iff (rem : Bytes) :
+    PkgWalk rem ↔ rem = [] ∨ (PkgOk rem ∧ PkgWalk (rem.drop (pkgAdvance rem))) := by
+  by_cases h : rem = []
+  · subst h
+    exact ⟨fun _ => Or.inl rfl, fun _ => .done⟩
+  · rw [PkgWalk, walk_cons_iff _ _ _ h]
+    simp [h]
+
+/-- iNET accepts a buffer exactly when it holds the 24-byte header, all the option words its first byte
+    declares, and every package met while walking the rest by the declared lengths has a complete header and
+    declares at least 12 bytes.  (The message length field is never looked at: notes/fti.md §4 F2.) -/
+theorem iNET_accepts_iff (t : State) (buf : Bytes) :
+    (unpack t buf).2 = .ok () ↔
+      24 + 4 * declaredWc buf ≤ buf.length ∧ PkgWalk (buf.drop (24 + 4 * declaredWc buf)) := by
+  by_cases h24 : buf.length < 24
+  · rw [iNET_short_rejected t buf h24]
+    simp; omega
+  · have hh : ∃ ty fl di sq ln ps pn, structUnpackFrom INET_HEADER_FORMAT buf 0 =
+        .ok [beNat (buf.take 1), ty, fl, di, sq, ln, ps, pn] := by
+      simp only [structUnpackFrom, INET_HEADER_FORMAT, Fmt.size, codesSize, Code.size, unpackCodes, decInt, List.drop_zero]
+      have : 0 + (1 + (1 + (2 + (4 + (4 + (4 + (4 + (4 + 0)))))))) ≤ buf.length := by omega
+      simp only [this, if_true]
+      exact ⟨_, _, _, _, _, _, _, rfl⟩
+    obtain ⟨ty, fl, di, sq, ln, ps, pn, hh⟩ := hh
+    simp only [unpack, INET_HEADER_LENGTH, h24, if_false, hh, and_F, declaredWc]
+    generalize beNat (buf.take 1) % 16 = wc
+    have hwalk := decPkg_walk (buf.drop (24 + wc * 4))
+    by_cases hwc : wc > 0
+    · simp only [hwc, if_true]
+      cases hu : structUnpackFrom (iNET_unpack_fmt0 wc) (List.drop 24 buf) 0 with
+      | error e =>
+        have := (structUnpackFrom_ok_iff (iNET_unpack_fmt0 wc) (List.drop 24 buf) 0)
+        rw [hu] at this
+        have hs : (iNET_unpack_fmt0 wc).size = 4 * wc := by
+          simp only [iNET_unpack_fmt0, Fmt.size, Lemmas.iNET.codesSize_replicate_u32]
+        simp only [hs, List.length_drop, R.isOk] at this
+        simp only [reduceCtorEq, false_iff, not_and]
+        intro hle
+        exfalso
+        have := this.2 (by omega)
+        cases this
+      | ok af =>
+        have := structUnpackFrom_ok_length _ _ _ _ hu
+        have hs : (iNET_unpack_fmt0 wc).size = 4 * wc := by
+          simp only [iNET_unpack_fmt0, Fmt.size, Lemmas.iNET.codesSize_replicate_u32]
+        simp only [hs, List.length_drop] at this
+        have hle : 24 + 4 * wc ≤ buf.length := by omega
+        simp only [hle, true_and]
+        rw [show 24 + 4 * wc = 24 + wc * 4 by omega, ← hwalk]
+        cases decOff decPkg moreRem (List.drop (24 + wc * 4) buf) ((List.drop (24 + wc * 4) buf).length + 1) 0 <;>
+          simp [R.isOk]
+    · have h0 : wc = 0 := by omega
+      subst h0
+      simp only [hwc, if_false]
+      have hle : 24 + 4 * 0 ≤ buf.length := by omega
+      simp only [hle, true_and]
+      rw [show 24 + 4 * 0 = 24 + 0 * 4 by omega, ← hwalk]
+      cases decOff decPkg moreRem (List.drop (24 + 0 * 4) buf) ((List.drop (24 + 0 * 4) buf).length + 1) 0 <;>
+        simp [R.isOk]
+
+/-- the F2 witness as a walk: one package declaring 100 bytes, 12 present — accepted, the walk jumps past the end -/
+example : PkgWalk [0, 0, 0, 1, 0, 100, 0, 0, 0, 0, 0, 0] :=
+  .step (by decide) (by decide) .done
+
+/-- a package declaring fewer than 12 bytes, or a trailing incomplete header, is refused -/
+example : ¬ PkgWalk [0, 0, 0, 1, 0, 11, 0, 0, 0, 0, 0, 0] := by
+  intro h
+  rw [PkgWalk_iff] at h
+  rcases h with h | ⟨h, _⟩
+  · cases h
+  · revert h; decide
+example : ¬ PkgWalk [0, 0, 0, 1, 0, 12, 0, 0, 0, 0, 0, 0, 1, 2, 3, 4] := by
+  intro h
+  rw [PkgWalk_iff] at h
+  rcases h with h | ⟨_, h⟩
+  · cases h
+  · rw [PkgWalk_iff] at h
+    rcases h with h | ⟨h, _⟩
+    · revert h; decide
+    · revert h; decide
 
 end Acra.Props.C09
